@@ -4,12 +4,15 @@
     every generated instance and every negative, not_merged / separated / outside_known on every generated
     sequence) and
     (2) its hand-written spelling -> kind table to the lists keywords / bangs / puncts / directives.
+    (3) the Unicode predicates of the lexer MODEL (Chars.is_whitespace / is_alphabetic over the generated
+    range tables) are extracted too, so that the check can compare them with the Rust std (unidump).
     ExtrOcamlBasic only; N/positive/nat stay the extracted inductives; no Extract Constant of our own. *)
 Require Extraction.
 Require ExtrOcamlBasic.
 From Coq Require Import List NArith String.
 From TG.Gen Require Import GenTokens.
-From TG.Model Require Import LexSpec.
+From TG.Gen Require Import GenUnicode.
+From TG.Model Require Import Chars LexSpec.
 
 Extraction Language OCaml.
 Extraction "extract/lexspec_core.ml"
@@ -17,4 +20,5 @@ Extraction "extract/lexspec_core.ml"
   cps keywords bangs puncts directives directive_words
   spec_tok spec_sep spec_directive follow_ok
   mkpiece valid_piece valid_piece_d render not_merged separated adjacent_ok
-  known_d26 outside_known.
+  known_d26 outside_known conservative no_conservative
+  is_whitespace is_alphabetic whitespace_ranges alphabetic_ranges.
